@@ -20,3 +20,11 @@ def quiet():
         yield
     finally:
         sys.stdout = old
+
+
+def short_err(e, n=400):
+    """first line of an error report (exception type and message) followed by the tail of its traceback"""
+    e = str(e)
+    first = e.split("\n", 1)[0][:300]
+    tail = " ".join(e.split())[-max(0, n - len(first)):]
+    return first if len(e) <= len(first) + 5 else "%s ... %s" % (first, tail)
